@@ -475,7 +475,7 @@ func (g *goGen) expr(e *Expr, inOld bool) string {
 			return name + "(" + strings.Join(as, ", ") + ")"
 		case "ite":
 			return fmt.Sprintf("govcIte(%s, %s, %s)", g.expr(args[0], inOld), g.expr(args[1], inOld), g.expr(args[2], inOld))
-		case "fresh", "typeis", "arr", "off", "ref", "elems", "modsentinel", "xzsentinel", "implements", "unboxed":
+		case "fresh", "typeis", "arr", "addr", "off", "ref", "elems", "modsentinel", "xzsentinel", "implements", "unboxed":
 			g.fail = "builtin " + name
 			return "false"
 		}
@@ -669,7 +669,7 @@ func runReplay(eng *Engine, rep *obReport, dir string, b *replayBuilder, fn *ssa
 	src.WriteString("func govcExists(lo, hi int64, f func(int64) bool) bool { for i := lo; i < hi && i < lo+4096; i++ { if f(i) { return true } }; return false }\n")
 	specSrc := gg.specFnSource()
 	src.WriteString(specSrc)
-	src.WriteString("\nfunc TestGovcReplay(t *testing.T) {\n")
+	src.WriteString("\nfunc TestGovcReplay(govcT *testing.T) {\n\t_ = govcT\n")
 	src.WriteString(b.decl.String())
 	// bind parameter names
 	for i, p := range fn.Params {
